@@ -116,16 +116,18 @@ TableLaw == \A c \in Cases : ~Ign(c) => NullResult(c) = WireResult(c)
 \* ------------------------------------------------------------------- histories
 \* One NullServer, one wire endpoint, a HISTORY of operations: the request header is set (h1, h2), cleared, and the methods f and g -
 \* which return the header they see - are called.  A call sees the header in force WHEN IT IS MADE, on both paths.
-HOps == {"set1", "set2", "clear", "callf", "callg"}
+\* callh: a method of a service that declares NO request header: it sees none, whatever the caller has set - on both paths
+HOps == {"set1", "set2", "clear", "callf", "callg", "callh"}
 Histories == UNION {[1..n -> HOps] : n \in 1..4}
 RECURSIVE HdrAt(_, _)
 HdrAt(h, k) == IF k = 0 THEN "none" ELSE IF h[k] = "set1" THEN "h1" ELSE IF h[k] = "set2" THEN "h2"
                ELSE IF h[k] = "clear" THEN "none" ELSE HdrAt(h, k - 1)
 RECURSIVE SeenFrom(_, _)
 SeenFrom(h, k) == IF k > Len(h) THEN <<>>
-                  ELSE (IF h[k] \in {"callf", "callg"} THEN << HdrAt(h, k - 1) >> ELSE <<>>) \o SeenFrom(h, k + 1)
+                  ELSE (IF h[k] \in {"callf", "callg"} THEN << HdrAt(h, k - 1) >> ELSE IF h[k] = "callh" THEN << "none" >> ELSE <<>>) \o SeenFrom(h, k + 1)
 HistoryFails(h, o) == (IF o.direct = SeenFrom(h, 1) THEN {} ELSE {"HeaderDirect"}) \cup (IF o.wire = SeenFrom(h, 1) THEN {} ELSE {"HeaderWire"})
                       \cup (IF o.direct = o.wire THEN {} ELSE {"SameAsWire"})
 ASSUME SeenFrom(<<"callf", "set1", "callf", "callg">>, 1) = <<"none", "h1", "h1">>
 ASSUME SeenFrom(<<"set1", "callf", "clear", "callf">>, 1) = <<"h1", "none">>
+ASSUME SeenFrom(<<"set1", "callh", "callg">>, 1) = <<"none", "h1">>
 =============================================================================
